@@ -365,6 +365,7 @@ func gcSafety(c *Check, P string, r *GCRoles) {
 	c07Persisted(c, S, r)
 	c07LockHolders(c, S, r)
 	c07RemoveExact(c, S, r)
+	c07ContainerInit(c, S, r)
 	c07TeardownOrder(c, S, r)
 	c07LockOrder(c, S, r)
 	r.LA.ReportLeaks(c, S, r.Funcs)
